@@ -1117,6 +1117,15 @@ class ManifestRecursiveLoader:
                     fpath = os.path.join(relpath, mname)
                     if fpath in self.loaded_manifests:
                         continue
+                    # a file that is listed as a regular (or ignored)
+                    # file is just that, whatever its name is
+                    if mname in dirdict or any(
+                            e.tag in ('DATA', 'MISC', 'EBUILD', 'AUX')
+                            and os.path.join(mdir, e.path) == fpath
+                            for _, mdir, m
+                            in self._iter_manifests_for_path(fpath)
+                            for e in m.entries):
+                        continue
 
                     # we've just found ourselves a new Manifest,
                     # let's try to load it
